@@ -330,7 +330,7 @@ type polScn struct {
 		Resphdr    string   `json:"resphdr"`
 		Cc         []string `json:"cc"`
 		Ccform     string   `json:"ccform"`
-		Expireshdr bool     `json:"expireshdr"`
+		Expireshdr string   `json:"expireshdr"`
 		Status     int      `json:"status"`
 		Vurl       string   `json:"vurl"`
 		Ct         bool     `json:"ct"`
@@ -400,8 +400,8 @@ func sxgScn(args []string) error {
 				sc.rawResp["Cache-Control"] = []string{strings.Join(ds, ", ")}
 			}
 		}
-		if s.Expireshdr {
-			sc.rawResp["Expires"] = []string{"Thu, 01 Jan 2099 00:00:00 GMT"}
+		if s.Expireshdr != "none" && s.Expireshdr != "" {
+			sc.rawResp["Expires"] = []string{map[string]string{"date": "Thu, 01 Jan 2099 00:00:00 GMT", "zero": "0", "neg": "-1", "iso": "2099-01-01T00:00:00Z", "junk": "never", "empty": ""}[s.Expireshdr]}
 		}
 		sp.vURL = map[string]string{"same": "https://example.com/v", "otherhost": "https://other.example/v", "http": "http://example.com/v",
 			"otherport": "https://example.com:8443/v", "p443": "https://example.com:443/v", "upperhost": "https://EXAMPLE.com/v",
